@@ -168,6 +168,14 @@ Theorem fetch_gate :
     = negb (must_not_send optype (map (fun r => (rf_rule r, d (rf_type r) (rf_field r))) (ft_roots ft))).
 Proof. exact fetch_gate_plan_lemma. Qed.
 Print Assumptions fetch_gate.
+(* T9b: the gate reads FetchInfo.RootFields only: a fetch for which the planner recorded no root
+   field is never held back, whatever the decisions (the planner records none for an entity
+   fetch planned below an inline fragment -- finding gate-entity-fetch-below-fragment-has-no-root-fields) *)
+Theorem fetch_gate_without_root_fields :
+  forall (has_authorization : bool) (optype : N) (ds : bytes) (k : cache),
+    is_fetch_authorized_from_cache has_authorization optype ds [] k = true.
+Proof. exact gate_no_root_fields. Qed.
+Print Assumptions fetch_gate_without_root_fields.
 Example c14_gate_example :
   let deny_x := fun (_ f : bytes) => bytes_eqb f [120] in
   let k := seed deny_x (collect_coordinates ex_plan) in
